@@ -64,7 +64,7 @@ def build_table(spec):
     o = spec["opts"]
     kw = dict(
         title=o.get("title"), caption=o.get("caption"), width=o.get("width"), min_width=o.get("min_width"),
-        box=None if o.get("box") is None else getattr(rbox, o["box"]),
+        box=None if o.get("box") is None else (custom_box() if o["box"] == "CUSTOM" else getattr(rbox, o["box"])),
         padding=o["padding"] if isinstance(o.get("padding"), int) else tuple(o.get("padding", (0, 1))),
         collapse_padding=o.get("collapse_padding", False), pad_edge=o.get("pad_edge", True), expand=o.get("expand", False),
         show_header=o.get("show_header", True), show_footer=o.get("show_footer", False), show_edge=o.get("show_edge", True),
@@ -197,10 +197,25 @@ def b(x):
 BOX_NAMES = None
 
 
+CUSTOM_BOX = None
+
+
+def custom_box():
+    """a box with 32 distinct one-cell characters: any mix-up of box characters in Box.__init__/get_row/_render shows"""
+    from rich import box as rbox
+
+    global CUSTOM_BOX
+    if CUSTOM_BOX is None:
+        CUSTOM_BOX = rbox.Box("abcd\nefgh\nijkl\nmnop\nqrst\nuvwx\nyzAB\nCDEF\n")
+    return CUSTOM_BOX
+
+
 def box_name(box):
     from rich import box as rbox
 
     global BOX_NAMES
+    if box is not None and box is CUSTOM_BOX:
+        return "raw:" + "/".join(".".join(str(ord(ch)) for ch in line) for line in str(box).splitlines())
     if BOX_NAMES is None:
         BOX_NAMES = {id(getattr(rbox, n)): n for n in dir(rbox) if isinstance(getattr(rbox, n), rbox.Box)}
     return "-" if box is None else BOX_NAMES[id(box)]
